@@ -191,7 +191,8 @@ inline void run(Ctx& C) {
   GF.upTo(Nf, [&](const MValue& f) { filters.push_back(f); });
   uint64_t pairs = 0;
   // ---- 1. all (input, filter) pairs over the two tree generators, JSON and MessagePack
-  GI.upTo(Ni, [&](const MValue& in) {
+  bool withLimitPass = true;
+  auto perInput = [&](const MValue& in) {
     if (C.expired()) return;
     if (!C.take()) return;
     refjson::PrintOpt po;
@@ -212,6 +213,7 @@ inline void run(Ctx& C) {
         pairCheck(C, fmt != 0, input, U, f, mtext(f));
       }
       // the same pairs with the nesting limit set to exactly the depth of the input: still Ok, still the projection
+      if (!withLimitPass) continue;
       int depth = int(in.nesting());
       RunResult U2 = runOnce(fmt != 0, input, nullptr, NONE, depth);
       if (U2.code != DeserializationError::Ok) C.fail("generator", "unfiltered run at limit == depth is not Ok");
@@ -222,7 +224,17 @@ inline void run(Ctx& C) {
         }
     }
     C.end();
-  });
+  };
+  GI.upTo(Ni, perInput);
+  int bigN = atoi(C.opt("big-input-nodes", "0").c_str());
+  if (bigN > Ni) {
+    // larger inputs: JSON-expressible leaves only, default nesting limit only
+    TreeGen GB = GI;
+    GB.leavesTop.resize(5);
+    withLimitPass = false;
+    for (int k = Ni + 1; k <= bigN; k++) GB.exact(k, 0, perInput);
+    C.bound("plus all inputs with " + std::to_string(Ni + 1) + ".." + std::to_string(bigN) + " nodes over the 5 JSON-expressible leaves at the default nesting limit");
+  }
   // ---- 2. filter `true` is the identity on every input, and arbitrary filters are safe, over a malformed space
   {
     const char alpha[] = {'[', ']', '{', '}', ',', ':', '"', '\'', '\\', '/', '*', 'u', '0', '1', '9', '-', '+', '.', 'e', 'a', 't', 'r', 'n', ' ', '\n', char(0x80)};
